@@ -215,6 +215,13 @@ def _check(pc, goal, timeout_ms):
     if r == z3.unsat:
         return "proved", None, "", "z3"
     if r == z3.sat:
+        from . import numcheck
+
+        kind, env = numcheck.validate(list(pc), goal, s.model())
+        if kind == "spurious":
+            return "unknown", None, "z3 counter-model interprets exp/log in a way no exponential behaves and no numeric counter-example was found (200 points): undecided", None
+        if kind == "genuine":
+            return "refuted", s.model(), "numeric counter-example (standard exp/log): %s" % ({k: (round(v, 6) if isinstance(v, float) else v) for k, v in list(env.items())[:12]},), "z3+numeric"
         return "refuted", s.model(), "", "z3"
     reason = s.reason_unknown()
     # reductions: try to *refute* with every reduction length fixed to a small N (finite sums are an
@@ -414,6 +421,12 @@ def _bounded_refute(pc, goal, timeout_ms):
         s.add(*fs)
         s.add(*[z3.simplify(x) for x in side])
         if s.check() == z3.sat:
+            from . import numcheck
+
+            hyp, g = fs[:-1] + [z3.simplify(x) for x in side], z3.Not(fs[-1])
+            kind, env = numcheck.validate(hyp, g, s.model())
+            if kind == "spurious":
+                continue  # exp/log interpreted non-standardly and no numeric counter-example: not a refutation
             return N, s.model()
     return None
 
